@@ -429,6 +429,12 @@ class Case:
         f = nix.File.open(self.path, nix.FileMode.Overwrite)
         try:
             self.grow(None, f, 1, "sec", self.sroots, maxdepth=rng.randint(1, 4))
+            if rng.random() < 0.5:
+                # a block WITHOUT any source comes first: searches and referring lists must get past it
+                b0 = f.create_block("a0_no_sources", "t")
+                self.broots[b0.name] = []
+                b0.create_data_array("d0", "t", data=[1.0])
+                self.ctx.count("files_with_a_leading_block_without_sources")
             for bn in ("b", "b2"):
                 b = f.create_block(bn, "t")
                 self.broots[bn] = []
@@ -446,11 +452,71 @@ class Case:
             self.mode = rng.choice([nix.FileMode.ReadOnly, nix.FileMode.ReadWrite])
             f = nix.File.open(self.path, self.mode)
             self.judge(f, "after_reopen")
+            if self.mode == nix.FileMode.ReadWrite:
+                self.kept_id_copies(f)
         finally:
             try:
                 f.close()
             except Exception:
                 pass
+
+    def kept_id_copies(self, f):
+        """A section subtree copied (ids kept - the default) to another place of the same tree: every search whose range holds
+        both the source and the copy lists both, with everything below them.  Oracle: an own breadth-first walk over the
+        containers (ids repeat here, so the walk, not an id-keyed model, is the reference)."""
+        rng, ctx = self.rng, self.ctx
+        secs = []
+        q = [(s, 1) for s in f.sections]
+        while q:
+            s, d = q.pop(0)
+            secs.append(s)
+            q.extend((c, d + 1) for c in s.sections)
+        if len(secs) < 2:
+            return
+        src = rng.choice(secs)
+        sub = set()
+        q = [src]
+        while q:
+            x = q.pop()
+            sub.add(x.id)
+            q.extend(x.sections)
+        dests = [s for s in secs if s.id not in sub]
+        try:
+            if dests and rng.random() < 0.7:
+                cp = rng.choice(dests).copy_section(src, name="kept id copy")
+            else:
+                cp = f.copy_section(src, name="kept id copy")
+            cp.create_section("added below the copy", "t")
+        except Exception as e:
+            ctx.observe("kept_id_copy_not_made", repr(e)[:200])
+            return
+
+        def walk(roots, limit):
+            out, q = [], [(r, 1) for r in roots]
+            while q:
+                s, d = q.pop(0)
+                if d > limit:
+                    continue
+                out.append((s.id, s.name))
+                q.extend((c, d + 1) for c in s.sections)
+            return out
+        ctx.count("kept_id_copy_searches")
+        for limit in (None, 1, 2, 3):
+            exp = walk(f.sections, limit if limit is not None else 10 ** 6)
+            try:
+                got = [(s.id, s.name) for s in (f.find_sections() if limit is None else f.find_sections(limit=limit))]
+            except Exception as e:
+                self.viol("File.find_sections:raises_%s:after_kept_id_copy" % type(e).__name__, {"error": repr(e)[:200]})
+                continue
+            if got != exp:
+                self.viol("File.find_sections:%s:after_kept_id_copy" % self.cmp_kind([x[0] for x in exp], [x[0] for x in got]),
+                          {"limit": limit, "expected": [x[1] for x in exp][:12], "got": [x[1] for x in got][:12], "n_expected": len(exp), "n_got": len(got)})
+        try:
+            got = [s.name for s in f.find_sections(filtr=lambda s: s.name == "added below the copy")]
+            if got != ["added below the copy"]:
+                self.viol("File.find_sections:missing:below_kept_id_copy", {"got": got})
+        except Exception as e:
+            self.viol("File.find_sections:raises_%s:after_kept_id_copy" % type(e).__name__, {"error": repr(e)[:200]})
 
     def signature(self):
         def shape(n):
